@@ -82,6 +82,10 @@ static void do_mesh(const std::string& text, std::ostream& o, bool at_double = f
   else if(hyper && sd == 3 && wd == 3) run_mesh_h3(reader, o);
   else if(simpl && sd == 2 && wd == 2) run_mesh_s2(reader, o);
   else if(simpl && sd == 3 && wd == 3) run_mesh_s3(reader, o);
+  else if(simpl && sd == 2 && wd == 3) run_mesh_s2w3(reader, o);
+  else if(hyper && sd == 2 && wd == 3) run_mesh_h2w3(reader, o);
+  else if(hyper && sd == 1 && wd == 2) run_mesh_h1w2(reader, o);
+  else if(hyper && sd == 1 && wd == 3) run_mesh_h1w3(reader, o);
   else o << "NOTYPE";
 }
 
